@@ -100,6 +100,9 @@ WORDS = {
     "CODE_LE":     (2, ["ite(a <= b, -1, 0)"]),
     "CODE_EQ0":    (1, ["ite(a == 0, -1, 0)"]),
     "CODE_INVERT": (1, ["-a - 1"]),
+    "CODE_I":      (0, ["old(do_i_[do_current_depth_ - 1])"]),
+    "CODE_J":      (0, ["old(do_i_[do_current_depth_ - 2])"]),
+    "CODE_K":      (0, ["old(do_i_[do_current_depth_ - 3])"]),
     "CODE_FALSE":  (0, ["0"]),
     "CODE_TRUE":   (0, ["-1"]),
 }
